@@ -693,8 +693,13 @@ void RowReordering::runRegionChoice(int cellInd) {
   } else {
     for (int i = 0; i < nbRegions(); ++i) {
       order_[i].push_back(cells_[cellInd]);
-      if (allocatedWidth(i) <= regions_[i].width()) {
-        // Only if there is enough space left in the row
+      if (allocatedWidth(i) <= regions_[i].width() &&
+          cellOrientationInRow(
+              placement_.cellRowPolarity(cells_[cellInd]),
+              placement_.rows()[regions_[i].row].orientation) !=
+              CellOrientation::INVALID) {
+        // Only if there is enough space left in the row and the polarity of
+        // the cell allows it
         ytopo_.updateCellPos(cells_[cellInd], placement_.rowY(regions_[i].row));
         runRegionChoice(cellInd - 1);
       }
